@@ -75,14 +75,14 @@ func (s *logSink) take() []string {
 
 type capLogger struct{ sink *logSink }
 
-func (l capLogger) Subsystem() string                  { return "" }
-func (l capLogger) WithSubsystem(string) log.Logger    { return l }
-func (l capLogger) With(...zap.Field) log.Logger       { return l }
-func (l capLogger) Debug(string, ...zap.Field)         {}
-func (l capLogger) Info(m string, _ ...zap.Field)      { l.rec(m) }
-func (l capLogger) Warn(m string, _ ...zap.Field)      { l.rec(m) }
-func (l capLogger) Error(m string, _ ...zap.Field)     { l.rec(m) }
-func (l capLogger) Sync() error                        { return nil }
+func (l capLogger) Subsystem() string               { return "" }
+func (l capLogger) WithSubsystem(string) log.Logger { return l }
+func (l capLogger) With(...zap.Field) log.Logger    { return l }
+func (l capLogger) Debug(string, ...zap.Field)      {}
+func (l capLogger) Info(m string, _ ...zap.Field)   { l.rec(m) }
+func (l capLogger) Warn(m string, _ ...zap.Field)   { l.rec(m) }
+func (l capLogger) Error(m string, _ ...zap.Field)  { l.rec(m) }
+func (l capLogger) Sync() error                     { return nil }
 func (l capLogger) StdLogger(zapcore.Level) *stdlog.Logger {
 	return stdlog.New(io.Discard, "", 0)
 }
